@@ -31,6 +31,9 @@ class Spec(MQSpec):
         ratio = ch.pick('gen', [3, 0.3, 1, 8])
         t_ms = max(400, int(interval * ratio * 1000))
         sc['lineage'] = {'interval_s': interval, 'emit_latency_ms': ch.pick('gen', [0, 1, 40, 300, 700])}
+        if ch.chance('gen', 1, 3):
+            # transport fault: the backend receives an event but emit() raises (answer lost), 1 in N emits
+            sc['lineage']['emit_faults'] = ch.pick('gen', [3, 2, 6])
         if self.tier == 'thorough' and ch.chance('gen', 1, 3):
             sc['lineage']['line_preempt'] = True       # line-granularity interleaving inside lineage.py
         sc['t_cause_ms'] = t_ms
